@@ -392,8 +392,9 @@ func init() {
 				Args: []ArgSpec{boolArg(), boolArg(), boolArg(), boolArg(), strArg(n, "abcBz")}})
 		}
 		cc.RunKernels(r, cases)
+		cc.RunMarshalPurityFamily(r) // the same Schema value marshals to the same bytes again: Marshal must not have changed it
 		r.Bounds = append(r.Bounds, "the same kernel after a Marshal that failed half-way (order lists of length <= 2): nothing of the failed call may be visible (sync.Pool modelled as returning any object put back earlier or a fresh one)")
-		r.Bounds = append(r.Bounds, fmt.Sprintf("real SSA of orderedProperties.MarshalJSON and basicChecks: properties = every subset of {a,b,c,B} (symbolic presence; b and B differ only in case), PropertyOrder = every sequence of length <= %d over {a,b,c,B,z} (z names no property; duplicates allowed), every map iteration order; json.Marshal of the (empty) property schemas is stubbed to the bytes `true`", maxO))
+		r.Bounds = append(r.Bounds, fmt.Sprintf("real SSA of orderedProperties.MarshalJSON and basicChecks: properties = every subset of {a,b,a!,B} (symbolic presence; b and B differ only in case, a is a prefix of a! and '!' sorts below the quote), PropertyOrder = every sequence of length <= %d over these names and z (z names no property; duplicates allowed), every map iteration order; json.Marshal of the (empty) property schemas is stubbed to the bytes `true`", maxO))
 		r.Outside = append(r.Outside, "determinism of the rest of Marshal (encoding/json sorts map keys; its body is not encoded); nested schemas with their own PropertyOrder beyond one level")
 	}
 }
